@@ -48,10 +48,12 @@ UNWRAP_OK = [
 
 
 def run(ctx):
+    shared.session_ended_with_close_before_files_change(ctx, '12')    # F79
     F = ctx.F
     # reads keep returning committed data after a failed write: overlay entries leave only after the record was published successfully
     shared.handover_order(ctx, '7')
     shared.metadata_replaced_atomically(ctx, '8')
+    shared.absence_is_not_decided_by_a_probe(ctx, '11')    # F78: a failing stat is not "no database here"
     C02.absent_only_if_not_found(ctx, '10')    # a table file left between create and a failed set_len is completed at the next open (an I/O error does not make the database unopenable)
     n = prop = stored = unw = local = 0
     local_counts = {}
